@@ -78,12 +78,15 @@ package standard
 // ---- threshold bound (C12 clause i, C14) ----
 
 //@ func (*Service).generate
+// (assumed, not verified: goroutines, WaitGroup and a channel range) every returned endpoint is a non-nil peer record
 //@ func (*Service).generateDistributed
+//@ ensures [endpoints] result2 == nil ==> (forall i int :: 0 <= i && i < len(result1) ==> result1[i] != nil)
 //@ func (*Service).checkAccess
 
 //@ func (*Service).OnGenerate
 //@ requires s != nil
 //@ ensures [threshold] result2 == nil ==> numParticipants >= 1 && signingThreshold <= numParticipants && 2 * signingThreshold > numParticipants
+//@ ensures [endpoints] result2 == nil ==> (forall i int :: 0 <= i && i < len(result1) ==> result1[i] != nil)
 
 //@ func (*Service).OnExecute
 //@ requires s != nil && s.generations != nil
